@@ -92,7 +92,7 @@ P("C16", "model_checking",
   models=["MC_Codec"], families=["requests", "responses", "vendor", "lengths"])
 P("C17", "model_checking",
   "non-trivial = a get_length call or a batch of 256 x K calls sharing bytes 1-2; distinct = distinct inputs / (b1,b2) batches",
-  models=["MC_Decode"], families=["probe"], exhaustive_thorough=True)
+  models=["MC_Decode", "MC_Endpoint"], families=["probe"], exhaustive_thorough=True)
 P("C18", "exploration",
   "every getter / setter / constructor / validator call on a header view is an evaluation; distinct = distinct (view, raw, field, value)",
   models=["MC_Layout"], families=["headers"])
